@@ -723,8 +723,11 @@ impl World {
         }
         let knows = |w: &World, k: &str| -> Option<u64> { k.parse::<u64>().ok().filter(|k| w.keys.contains_key(k)) };
         match ws.as_slice() {
-            ["key", k, d] => {
+            ["key", k, d] | ["key", k, d, _, _] => {
                 let Ok(k) = k.parse::<u64>() else { return "bad-op".into() };
+                if ws.len() == 5 && (ws[3] != hex::encode(key_bytes(k)) || ws[4] != hex::encode(self.peer.to_bytes())) {
+                    return "bad-op".into();
+                }
                 let key = RecordKey::new(&key_bytes(k));
                 let dist = self.dist_of(&key);
                 if *d != dist.to_string() {
@@ -1586,7 +1589,9 @@ impl Runner {
                 // resolve `@` forms to the harness's own distances
                 let resolved = match ws.as_slice() {
                     ["key", k, d] if d.starts_with('@') => match k.parse::<u64>() {
-                        Ok(kk) => format!("key {k} {}", w.dist_of(&RecordKey::new(&key_bytes(kk)))),
+                        // distance (sha2 + XOR, computed here), then the raw bytes it is the distance of: the record key
+                        // and this node's peer id — the model recomputes the number with its own SHA-256
+                        Ok(kk) => format!("key {k} {} {} {}", w.dist_of(&RecordKey::new(&key_bytes(kk))), hex::encode(key_bytes(kk)), hex::encode(w.peer.to_bytes())),
                         Err(_) => line.to_string(),
                     },
                     ["setrange", r] if r.starts_with('@') => {
